@@ -194,17 +194,6 @@ theorem normText_nil (c : WCfg) (hs : isSyncml c.lang.id = false) : normText c [
 
 /-! ### The normalisation of a tree -/
 
-def isText : Node → Bool
-  | .text _ => true
-  | _ => false
-
-/-- Append a normalised child: an empty text node is dropped, a text node is merged into a
-    preceding text sibling (`addKid`). -/
-def addN (acc : List Node) (n : Node) : List Node :=
-  match n with
-  | .text s => addChars acc s
-  | _ => addKid acc n
-
 /-- Names are compared as XML names read as C strings: token or literal does not matter. -/
 def normName (n : Name) : Name := .literal (cstrOf n.xmlName)
 
@@ -256,70 +245,6 @@ theorem normAttrs_idem (c : WCfg) (attrs : List Attr) : normAttrs c (normAttrs c
     funext a
     exact normAttr_idem a
   · rfl
-
-/-! ### Child lists: `addKid` at the end -/
-
-def lastText (l : List Node) : Bool :=
-  match l.getLast? with
-  | some k => isText k
-  | none => false
-
-def headText (l : List Node) : Bool :=
-  match l with
-  | k :: _ => isText k
-  | [] => false
-
-theorem addKid_not_text (kids : List Node) (n : Node) (h : isText n = false) : addKid kids n = kids ++ [n] := by
-  unfold addKid
-  cases n with
-  | text s => cases h
-  | elt _ _ _ => rfl
-  | cdata _ => rfl
-  | tree _ _ _ => rfl
-
-theorem addKid_text_after (kids : List Node) (s : Bytes) (h : lastText kids = false) :
-    addKid kids (.text s) = kids ++ [.text s] := by
-  unfold addKid
-  unfold lastText at h
-  cases hl : kids.getLast? with
-  | none => rfl
-  | some k =>
-    rw [hl] at h
-    cases k with
-    | text t => cases h
-    | elt _ _ _ => rfl
-    | cdata _ => rfl
-    | tree _ _ _ => rfl
-
-theorem addKid_text_merge (pre : List Node) (t s : Bytes) :
-    addKid (pre ++ [.text t]) (.text s) = pre ++ [.text (t ++ s)] := by
-  unfold addKid
-  simp only [List.getLast?_append, List.getLast?_singleton, Option.some_or, List.dropLast_concat]
-
-theorem lastText_snoc (l : List Node) (k : Node) : lastText (l ++ [k]) = isText k := by
-  unfold lastText
-  simp only [List.getLast?_append, List.getLast?_singleton, Option.some_or]
-
-/-- A list whose last element is a text node ends in that node. -/
-theorem lastText_split (l : List Node) (h : lastText l = true) : ∃ pre t, l = pre ++ [.text t] := by
-  unfold lastText at h
-  cases hl : l.getLast? with
-  | none => rw [hl] at h; cases h
-  | some k =>
-    rw [hl] at h
-    obtain ⟨pre, rfl⟩ : ∃ pre, l = pre ++ [k] := by
-      have hne : l ≠ [] := by intro hn; rw [hn] at hl; cases hl
-      refine ⟨l.dropLast, ?_⟩
-      have h1 := List.dropLast_concat_getLast hne
-      have h2 : l.getLast hne = k := by
-        rw [List.getLast?_eq_some_getLast hne] at hl; injection hl
-      rw [h2] at h1; exact h1.symm
-    cases k with
-    | text t => exact ⟨pre, t, rfl⟩
-    | elt _ _ _ => cases h
-    | cdata _ => cases h
-    | tree _ _ _ => cases h
-
 
 /-- No two adjacent text nodes. -/
 def noAdj : List Node → Bool
